@@ -115,14 +115,17 @@ def depth (c : Circuit) : Nat :=
       (if b1 < nMom then nMom else nMom + 1, latest')
   (c.gates.foldl step (0, [])).1
 
+/-- one existing group against the group being built: if they share a qubit the group is absorbed and removed -/
+def absorb (acc : List Nat × List (List Nat)) (qs : List Nat) : List Nat × List (List Nat) :=
+  if qs.any (fun x => acc.1.contains x) then (qs.foldl setInsert acc.1, acc.2.filter (· != qs)) else acc
+
+/-- one gate of `get_entangled_indices`: its qubits, merged with every existing group they touch, become the last group -/
+def entStep (ent : List (List Nat)) (g : Gate) : List (List Nat) :=
+  let r := ent.reverse.foldl absorb (setOfList g.qubits, ent)
+  r.2 ++ [r.1]
+
 /-- `get_entangled_indices` : list of sets, in the order the code leaves them -/
-def entangledIndices (c : Circuit) : List (List Nat) :=
-  c.gates.foldl (fun (ent : List (List Nat)) g =>
-    let (qNew, ent') := ent.reverse.foldl (fun (acc : List Nat × List (List Nat)) qs =>
-        let (q, e) := acc
-        if qs.any (fun x => q.contains x) then (qs.foldl setInsert q, e.filter (· != qs)) else (q, e))
-      (setOfList g.qubits, ent)
-    ent' ++ [qNew]) []
+def entangledIndices (c : Circuit) : List (List Nat) := c.gates.foldl entStep []
 
 def mapIdx (m : List (Nat × Nat)) (q : Nat) : Except Err Nat :=
   match m.find? (·.1 == q) with
@@ -167,24 +170,33 @@ def reindexQubits (c : Circuit) (newIdx : List Nat) : Except Err Circuit :=
     let gs ← remapGates m c.gates
     pure { c with gates := gs, indices := setOfList newIdx }
 
+/-- the qubit groups cover every gate and are pairwise disjoint: the hypothesis `GroupsOK` of the `split` theorem, in
+    executable form (evaluated by the driver on every circuit whose entangled sets are requested) -/
+def groupsOkB (ent : List (List Nat)) (gates : List Gate) : Bool :=
+  gates.all (fun g => ent.any (fun s => g.qubits.all (fun q => s.contains q))) &&
+  (List.range ent.length).all (fun i => (List.range ent.length).all (fun j =>
+    i == j || ((ent.getD i []).all (fun q => !(ent.getD j []).contains q))))
+
+/-- index of the first group that shares a qubit with the gate -/
+def firstGroup (g : Gate) : Nat → List (List Nat) → Option Nat
+  | _, [] => Option.none
+  | i, s :: rest => if g.qubits.any (fun q => s.contains q) then some i else firstGroup g (i + 1) rest
+
+/-- the gate is appended to the circuit of the first group it shares a qubit with -/
+def placeGate (ent : List (List Nat)) (cs : List Circuit) (g : Gate) : Except Err (List Circuit) :=
+  match firstGroup g 0 ent with
+  | some i => match cs[i]? with
+    | some ci => match ci.addGate g with
+      | .ok ci' => Except.ok (cs.set i ci')
+      | .error e => Except.error e
+    | Option.none => Except.ok cs
+  | Option.none => Except.ok cs
+
 /-- `split(trim_qubits)` -/
 def split (c : Circuit) (trim : Bool) : Except Err (List Circuit) := do
   let ent := c.entangledIndices
-  let place := fun (cs : List Circuit) (g : Gate) =>
-    -- first group sharing a qubit with the gate receives it
-    let rec go (i : Nat) (groups : List (List Nat)) : Option Nat :=
-      match groups with
-      | [] => Option.none
-      | s :: rest => if g.qubits.any (fun q => s.contains q) then some i else go (i + 1) rest
-    match go 0 ent with
-    | some i => match cs[i]? with
-      | some ci => match ci.addGate g with
-        | .ok ci' => Except.ok (cs.set i ci')
-        | .error e => Except.error e
-      | Option.none => Except.ok cs
-    | Option.none => Except.ok cs
   let init := ent.map (fun _ => empty Option.none)
-  let cs ← c.gates.foldlM place init
+  let cs ← c.gates.foldlM (placeGate ent) init
   if trim then cs.mapM trimQubits else pure cs
 
 /-- module-level `stack(*circuits)` -/
@@ -213,8 +225,10 @@ def inverse (c : Circuit) : Except Err Circuit := do
   let gs ← inverseGates c.gates.reverse
   ofGates gs c.fixed
 
-def rotSmallSet : List String := ["RX", "RY", "RZ", "CRX", "CRY", "CRZ"]
-def rotMergeSet : List String := ["RX", "RY", "RZ", "CRX", "CRY", "CRZ", "PHASE", "CPHASE"]
+/-- `rot_gates` of `remove_small_rotations` (regenerated from the source of the working tree) -/
+def rotSmallSet : List String := Tables.rotSmallSet
+/-- `rot_gates` of `merge_rotations` (regenerated from the source of the working tree) -/
+def rotMergeSet : List String := Tables.rotMergeSet
 
 /-- value and margin of the test `abs(θ) % period < thr` -/
 def smallTest (name : String) (a : Ang) (thr : Float) : Bool × Float :=
